@@ -27,6 +27,8 @@ class C03(EngineProp):
         had_queue = False
         had_retry_timer = False
         idle_events = 0
+        prev_heap: set = set()
+        due_at_once: set = set()  # retry wake-ups that were due the moment they were scheduled (a retry delay of zero)
         for tk in rec.ticks:
             if not tk["ok"]:
                 continue
@@ -34,6 +36,10 @@ class C03(EngineProp):
             retry_timers = [h for h in tk["heap"] if h[1] == "TickAddEvent"]
             if retry_timers:
                 had_retry_timer = True
+            for h in retry_timers:
+                if h not in prev_heap and h[0] - tk.get("now_engine", 0.0) < 1e-5:
+                    due_at_once.add(h)
+            prev_heap = set(tk["heap"])
             for name, w in tk["workers"].items():
                 if w["queue"]:
                     had_queue = True
@@ -48,7 +54,10 @@ class C03(EngineProp):
                 if busy:
                     r.v("idle_with_step_work", steps=busy, via=pub["type"])
                 if retry_timers:
-                    r.v("idle_with_pending_retry", via=pub["type"])
+                    # the known finding is about a retry that is waiting out a POSITIVE delay; a retry that is due at once is work
+                    r.v("idle_with_pending_retry", via=pub["type"], retry_due_at_once=any(h in due_at_once for h in retry_timers))
+                    if any(h in due_at_once for h in retry_timers):
+                        r.classes.append("idle_while_zero_delay_retry_scheduled")
                 buffered = [b for b in tk["buffer"] if b in ("TickAddEvent", "TickStepResult")]
                 if buffered:
                     r.v("idle_with_buffered_tick", via=pub["type"], buffered=buffered[0])
